@@ -209,6 +209,15 @@ func corrupt() [][]string {
 	add("default_int32", "repeated_int32.x")
 	add("default_well_known.default_timestamp.seconds.x")
 	add("oneof_default_int32.y")
+	// a corrupted path next to one of its own ancestors (or repeated): whatever a mask is turned into before it is
+	// applied, the corrupted path is still part of what the caller asked for
+	add("default_nested_message", "default_nested_message.nope")
+	add("default_nested_message.nope", "default_nested_message")
+	add("default_int32", "default_int32.x")
+	add("map_string_string", "map_string_string.k")
+	add("repeated_nested_message", "repeated_nested_message.a")
+	add("default_nested_message.corecursive", "default_nested_message.corecursive.nope", "default_string")
+	add("nope", "nope")
 	return out
 }
 
@@ -262,6 +271,36 @@ func main() {
 				}
 			}
 			_ = mi
+		}
+		// a typed nil pointer is a message too (an invalid, empty one): no mask may make a read of it panic
+		if s.Own() {
+			for _, paths := range [][]string{nil, {}, {"default_int32"}, {"default_nested_message.a"}, {"no_such_field"}, {"default_int32.x"}} {
+				var mask *fieldmaskpb.FieldMask
+				if paths != nil {
+					mask = &fieldmaskpb.FieldMask{Paths: paths}
+				}
+				for _, via := range []string{"filter", "value"} {
+					s.Eval(1)
+					s.Trans(1)
+					name := fmt.Sprintf("typed-nil %s mask=%v", via, paths)
+					s.State(name)
+					if p := func() (p any) {
+						defer func() { p = recover() }()
+						var none *lib.T
+						if via == "filter" {
+							rf := masks.NewResponseFilter(masks.WithFieldMask(mask))
+							rf.Filter(none)
+							_ = rf.FilterClone(none)
+						} else {
+							v := resource.NewValue(resource.WithInitialValue(none))
+							_ = v.Get(resource.WithReadMask(mask))
+						}
+						return nil
+					}(); p != nil {
+						s.Fail("panic "+name, fmt.Sprintf("reading a typed nil message panicked: %v", p), nil)
+					}
+				}
+			}
 		}
 		s.Sample(map[string]any{"case": mcase{Msg: 12, Paths: []string{"default_nested_message.a", "default_foreign_message"}, Via: "collection"}.key(), "meaning": "catalogue message #12 read through Collection.Get/List with that mask, compared with an independent protoreflect projection"})
 	})
